@@ -336,6 +336,8 @@ def ev(n, env, funcs=None):
             return v.__name__
         if isinstance(v, (list, dict, set, str, tuple)) and not isinstance(v, Table) and hasattr(v, n.attr) and callable(getattr(v, n.attr)):
             return getattr(v, n.attr)       # a bound method of a builtin container taken as a value (map(d.__getitem__, keys))
+        if v is None:
+            raise AttributeError("'NoneType' object has no attribute %r (%s)" % (n.attr, txt))
         raise Unsupported('attribute %s' % txt)
     if isinstance(n, ast.Subscript):
         base = ev(n.value, env, funcs)
@@ -360,6 +362,8 @@ def ev(n, env, funcs=None):
             return base[idx]
         if isinstance(base, str) and isinstance(idx, int) and -len(base) <= idx < len(base):
             return base[idx]
+        if base is None or isinstance(base, (int, float, bool)):
+            raise TypeError("'%s' object is not subscriptable (%s)" % (type(base).__name__, _unparse(n)))
         raise Unsupported('subscript %s' % _unparse(n))
     if isinstance(n, ast.Constant):
         return n.value
